@@ -1071,6 +1071,29 @@ def gen_C10(tier, seed):
             x = r.choice([r.uniform(-3e6, 3e6), float(r.randint(-3000000, 3000000)), r.randint(0, 10**7) / 64.0])
             ts_ = r.choice(["TAI", "UTC", "TT", "GPST", "GST", "BDT", "QZSST"])
             out.append(f"p_epoch {enc(f'{form} {x!r} {ts_}')}")
+    # numeric forms against the instant the text denotes (exact decimal), every (form, scale)
+    def pnum(form, x_str, t):
+        neg = 1 if x_str.startswith("-") else 0
+        body = x_str.lstrip("-")
+        ip, _, fp = body.partition(".")
+        return f"p_num {form} {neg} {enc(ip)} {enc(fp)} {t}"
+    rn = random.Random(seed * 23 + 10)
+    fixed = {1: ["2415020.5", "2451545", "2451545.0", "2444244.5", "2453736.5", "1721425.5", "5373484.49999", "2400000.5", "0", "2460000.123456789"],
+             2: ["15020", "15020.0", "51544.5", "44244", "44244.0", "53736", "51412", "0", "-678575", "2973483.99999", "60000.000000001", "40587.5"],
+             3: ["0", "1", "-1", "0.5", "86400", "3155760000", "-3155760000", "1e0" if False else "1000000000.000000001", "315576000000", "0.000000001"]}
+    for form, xs in fixed.items():
+        for x in xs:
+            for t in range(9):
+                out.append(pnum(form, x, t))
+    for _ in range(budget(tier, 4000, 300000)):
+        form = rn.choice([1, 2, 3])
+        t = rn.randint(0, 8)
+        days = rn.choice([rn.uniform(-3652059, 3652059), float(rn.randint(-3652059, 3652059)), rn.randint(-10**7, 10**7) / 64.0])
+        x = days + (2415020.5 if form == 1 else 15020.0 if form == 2 else 0.0)
+        if form == 3:
+            x = days * 86400.0
+        k = rn.choice([0, 1, 3, 6, 9, 12])
+        out.append(pnum(form, f"{x:.{k}f}", t))
     return out
 
 
